@@ -154,10 +154,18 @@ class TLV:
         result = []
         # do not influence caller!
         tail = ba.copy()
+        skipped = False
         while len(tail) > 0:
             key = tail.pop(0)
             if expected and key not in expected:
-                break
+                # Not an item this step knows about. If it is well formed skip
+                # it, so that a State or Error item behind it is still seen;
+                # anything else is trailing junk and ends the message.
+                if len(tail) == 0 or tail[0] > len(tail) - 1:
+                    break
+                tail = tail[1 + tail[0] :]
+                skipped = True
+                continue
             if len(tail) == 0:
                 raise TlvParseException(f"Missing length byte while decoding '{ba}'")
             length = tail.pop(0)
@@ -166,10 +174,11 @@ class TLV:
                 raise TlvParseException(f"Not enough data for length {length} while decoding '{ba}'")
             tail = tail[length:]
 
-            if len(result) > 0 and result[-1][0] == key:
+            if len(result) > 0 and result[-1][0] == key and not skipped:
                 result[-1][1] += value
             else:
                 result.append([key, value])
+            skipped = False
         logger.debug("receiving %s", TLV.to_string(result))
         return result
 
